@@ -259,7 +259,9 @@ class _FileProxy:
         return self._f.fileno()
 
     def write(self, data):
-        _emit("append" if "a" in self._mode else "rewrite", self._path, data)
+        inj = _emit("append" if "a" in self._mode else "rewrite", self._path, data)
+        if inj and "a" in self._mode:
+            _raise(inj, self._path)
         r = self._f.write(data)
         self._f.flush()
         return r
@@ -328,7 +330,9 @@ class _ChunkProxy:
         return False
 
     def write(self, data):
-        _emit("write", self._path, len(data))
+        inj = _emit("write", self._path, len(data))
+        if inj:
+            _raise(inj, self._path)
         r = self._f.write(data)
         self._f.flush()
         return r
@@ -381,7 +385,9 @@ class _TmpWrap:
         return self._tmp.close()
 
     def write(self, data):
-        _emit("write", self._tmp.name, len(data))
+        inj = _emit("write", self._tmp.name, len(data))
+        if inj:
+            _raise(inj, self._tmp.name)
         return self._tmp.write(data)
 
     def __getattr__(self, name):
@@ -444,6 +450,47 @@ def locked_lists(hs, mode="th"):
     return {cls: list(getattr(hs, attr + "_" + mode)) for cls, attr in LOCK_ATTRS.items()}
 
 
+# ---------------------------------------------------------------- primitives the modelled code does not use
+
+# File-system mutations through a primitive that FileHashStore does not call today (so the model has no operation for
+# it).  They are interposed all the same: as an event of kind "foreign" such a call is a step of the controlled
+# scheduler, a crash point, a fault site and an entry of the operation trace — where it matches nothing in the model.
+FOREIGN = [("os", "rmdir"), ("os", "removedirs"), ("os", "link"), ("os", "symlink"), ("os", "truncate"), ("os", "renames"),
+           ("os", "open"), ("os", "mkfifo"), ("os", "chown"), ("shutil", "rmtree"), ("shutil", "copyfile"), ("shutil", "copy"),
+           ("shutil", "copy2"), ("shutil", "copytree"), ("shutil", "copyfileobj")]
+_SECOND_ARG = {"link", "symlink", "renames", "copyfile", "copy", "copy2", "copytree"}     # the destination is the 2nd argument
+
+
+def _mk_foreign(modname, name):
+    mod = {"os": os, "shutil": shutil}[modname]
+    real = getattr(mod, name)
+    _real[modname + "." + name] = real
+
+    def f(*a, **k):
+        if MON is not None and _depth() == 0 and getattr(_tls, "in_move", 0) == 0 and getattr(_tls, "in_foreign", 0) == 0:
+            target = None
+            if name == "copyfileobj":
+                target = getattr(a[1], "name", None) if len(a) > 1 else None
+            elif name in _SECOND_ARG and len(a) > 1:
+                target = a[1]
+            elif a:
+                target = a[0]
+            if name == "open" and not (len(a) > 1 and isinstance(a[1], int) and a[1] & (os.O_WRONLY | os.O_RDWR | os.O_CREAT | os.O_TRUNC | os.O_APPEND)):
+                target = None                      # a read-only os.open changes nothing
+            if isinstance(target, (str, bytes, os.PathLike)):
+                inj = _emit("foreign", target, modname + "." + name)
+                if inj:
+                    _raise(inj, target)
+        _tls.in_foreign = getattr(_tls, "in_foreign", 0) + 1
+        try:
+            return real(*a, **k)
+        finally:
+            _tls.in_foreign -= 1
+    f.__name__ = name
+    f.__wrapped__ = real
+    return f
+
+
 # ---------------------------------------------------------------- install
 
 _installed = False
@@ -488,6 +535,10 @@ def install():
     fcntl.flock = _flock
     shutil.move = _move
     fhs.NamedTemporaryFile = _named_tmp
+    for modname, name in FOREIGN:
+        mod = {"os": os, "shutil": shutil}[modname]
+        if hasattr(mod, name):
+            setattr(mod, name, _mk_foreign(modname, name))
     _installed = True
 
 
